@@ -36,11 +36,23 @@ CFG = {
         "Parsley.C10.menu_closed", "Parsley.C10.S'_closed", "Parsley.C10.rendered_conforms",
         # C08e: the acceptance half for the MACHINE (code as it is), all documents (from C08 machine_complete)
         "Parsley.C10.shipped_wf", "Parsley.C10.machine_accepts_rendered", "Parsley.C10.machine_accepts_rendered_fuel",
+        # C08f: machine = declarative reading on the twelve shipped component types inside C08's fragment F2 (the catalog type is not)
+        "Parsley.C10.machine_eq_rules_shipped_partial", "Parsley.C10.shipped_F2_names", "Parsley.C10.shipped_catalog_not_F2",
         # sweep follow-up (register deleted in new_refined / new_indirect): the names registered by the real catalog_type and the
         # kind (predicate, indirect requirement) of the check found under each (Props/C10Registered.lean)
         "Parsley.C10.shipped_registered_kinds",
     ],
     "partial": {
+        "Parsley.C10.machine_eq_rules_shipped_partial":
+            "machine verdict (code as it is, work bound of C09) = declarative reading for ALL graphs and objects on the twelve "
+            "registered component types of the shipped specification inside C08's fragment F2 (rectangle = array of four "
+            "Integer|Real - the one shipped disjunction of leaves -, resources, namedictionary, nametree, numbertree, date, rotate, "
+            "count, pages, parent, structparents, the empty dictionary; from C08 machine_eq_conforms_F2 and the closed fact "
+            "shipped_F2_names). MISSING: the same for the catalog type and the types containing the disjunction page|node|template "
+            "or a /Parent entry (catalog, root-page-tree, root-non-page-tree, kids, kid, page, template): they are outside F2 "
+            "(shipped_catalog_not_F2: compound alternatives, Any entry with a bare indirect requirement) and the statement is FALSE "
+            "there for the code as it is (memo-leak, any-entry-skips-indirect witnesses); so REJECTION by the machine of a mutated "
+            "whole document is still not a theorem",
         "Parsley.C10.rendered_conforms_partial":
             "SUPERSEDED by the full theorems of the C10b follow-up (kept as a lemma): `rendered_conforms` (Props/C10Full.lean) proves "
             "conformance for EVERY well-formed document WITH arbitrary optional entries of the menu -- since the sweep follow-up EVERY "
